@@ -24,16 +24,17 @@ type Executor interface {
 }
 
 // Engine is one stateful correspondence engine.
-//   New      builds the executor (chains are built lazily, once per process);
-//   Gen      produces histories; it calls do(request) for every request and may look at the answer;
-//   Monitor  evaluates the property itself on the implementation (sound: reports only genuine
-//            violations of the property as stated in properties.jsonl).
+//
+//	New      builds the executor (chains are built lazily, once per process);
+//	Gen      produces histories; it calls do(request) for every request and may look at the answer;
+//	Monitor  evaluates the property itself on the implementation (sound: reports only genuine
+//	         violations of the property as stated in properties.jsonl).
 type Engine struct {
 	Name    string
 	Props   []string
 	New     func() Executor
 	Gen     func(r *lib.Rng, n int, do func(lib.M) any)
-	Monitor func(r *lib.Rng, n int, report func(Violation))
+	Monitor func(r *lib.Rng, n int, report func(Viol))
 }
 
 var Engines []Engine
@@ -131,9 +132,9 @@ func Strs(in lib.M, k string) []string {
 	return nil
 }
 
-// Violation is a property-level failure found by a monitor on the implementation.  Key is a stable
+// Viol is a property-level failure found by a monitor on the implementation.  Key is a stable
 // failure-class id matched against known_findings.json; Requests replays the history.
-type Violation struct {
+type Viol struct {
 	Property string  `json:"property"`
 	Key      string  `json:"key,omitempty"`
 	What     string  `json:"what"`
